@@ -501,6 +501,8 @@ def signature(op: dict, obs: dict, complaint: str, any_arith: set | None = None)
                 arith = "any"
             return "C17:dropped:%s:%s:%s" % (key, arith, dia)
     places = "+".join(sorted({b["place"] for b in op["bodies"]} if op["bodies"] else {p["place"] for p in op["params"]}))
+    if any(p.get("viaContent") for p in op["params"]):
+        places += "+content-parameter"
     return "C17:%s:%s:%s" % (complaint, places or op["slice"], "swagger2" if op["dialect"] == "2.0" else "openapi3")
 
 
